@@ -186,6 +186,7 @@ class Server(object):
         self.outq = {}       # account name -> [(node, meta)]
         self.clock = 1600000000
         self.low_water = 2
+        self.fail_key_requests = {}      # account name -> number of key requests to answer with an error
         from yowsup.layers.coder.tokendictionary import TokenDictionary
         from yowsup.layers.coder.encoder import WriteEncoder
         from yowsup.layers.coder.decoder import ReadDecoder
@@ -244,6 +245,11 @@ class Server(object):
             ent["asked"] = False
             self.world.ev("KeysUploaded", who=acc.name, n=len(keys))
             self.push(acc, N("iq", {"type": "result", "id": node["id"], "from": SERVER}), {"k": "iq"})
+        elif xmlns == "encrypt" and typ == "get" and self.fail_key_requests.get(acc.name, 0) > 0:
+            # fault: the key directory is temporarily unavailable for this client
+            self.fail_key_requests[acc.name] -= 1
+            self.world.ev("KeysRefused", who=acc.name)
+            self.push(acc, N("iq", {"type": "error", "id": node["id"], "from": SERVER}, [N("error", {"code": "500", "text": "internal-server-error"})]), {"k": "iq"})
         elif xmlns == "encrypt" and typ == "get":
             users = []
             for u in node.getChild("key").getAllChildren("user"):
